@@ -29,8 +29,7 @@ def c13(ctx):
         s = ctx.session(fl)
         r = s.run_seq('c13_wrap_seq', covers=[1])
         ctx.add(tag(r, mode='M1', flavor=fl, sample={'scenario': 'c13_wrap_seq', 'generation': 'symbolic', 'paths': r['paths']}))
-    if ctx.tier != 'quick':
-        conc_run(ctx, SPECS['wrap_conc'], loop_bound=3)
+
 
 
 def conc_run(ctx, spec, flavor='rel', features=(), **kw):
